@@ -74,6 +74,8 @@ class Member:
             "size": self.size,
             "crc": self.crc,
             "mtime": self.mtime,
+            "ctime": getattr(self, "ctime", None),
+            "atime": getattr(self, "atime", None),
             "attributes": self.attributes,
             "data_crc": None if self.data is None else zlib.crc32(self.data) & 0xFFFFFFFF,
         }
